@@ -35,6 +35,21 @@ func (sm *seatManager) RandomAssignSeats(playerIDs []string) error {
 	sm.mu.Lock()
 	defer sm.mu.Unlock()
 
+	// check duplicate players (in the batch, and against players already seated)
+	newPlayerIDs := make(map[string]bool)
+	for _, playerID := range playerIDs {
+		if _, exist := newPlayerIDs[playerID]; exist {
+			return ErrDuplicatePlayers
+		}
+		newPlayerIDs[playerID] = true
+	}
+
+	for _, seatPlayer := range sm.SeatData {
+		if seatPlayer != nil && funk.Contains(newPlayerIDs, seatPlayer.ID) {
+			return ErrDuplicatePlayers
+		}
+	}
+
 	seatIDs, err := sm.randomSeatIDs(len(playerIDs))
 	if err != nil {
 		sm.printState(1, func(tag int) {
